@@ -26,6 +26,7 @@ func propC05() *Property {
 			{ID: "C05.R4", Title: "NewFailure never receives a possibly-nil error", Floor: 18, Run: c05R4},
 			{ID: "C05.R5", Title: "a response head cut off mid-line is never parsed as a line", Floor: 3, Run: wholeLines},
 			{ID: "C05.R6", Title: "the fetch path keeps no unsynchronised shared state (concurrent faults cannot crash the process)", Floor: 28, Run: c08R6},
+			{ID: "C05.R8", Title: "garbage in a response cannot index past the pieces it was split into", Floor: 0, Run: splitIndexing},
 			{ID: "C05.R7", Title: "whatever a fetch may block on is released on every path, the error paths included", Floor: 0, Run: c05R7},
 		},
 	}
@@ -100,6 +101,9 @@ func c05R1(c *Ctx) {
 				return
 			}
 			nConns++
+			// the dial and the handshake themselves are bounded by the configured timeout
+			okDial, whyDial := dialBounded(P, call)
+			c.check(okDial, FuncName(fn)+"/dial-bounded", P.InstrPos(in), FuncName(fn), "connecting (and the TLS handshake) is limited by the configured timeout", whyDial)
 			uses := connUses(P, conn, 0)
 			var deadlines []connUse
 			for _, u := range uses {
@@ -885,4 +889,94 @@ func c05R7(c *Ctx) {
 	}
 	c.info("blocking_acquisitions", n)
 	c.ok("module/blocking-acquisitions", "", "module", fmt.Sprintf("%d channel acquisitions in the module, each checked for release on every path", n))
+}
+
+// dialBounded: the dial is made through a net.Dialer whose Timeout is the
+// configured network timeout (the value C19 validates as positive), or with
+// net.DialTimeout on that value. tls.DialWithDialer applies the dialer's
+// timeout to the handshake as well. A dialer whose Timeout is some other
+// quantity (a fraction that can truncate to zero, say) has no limit at all when
+// that quantity is zero.
+func dialBounded(P *Program, call *ssa.Call) (bool, string) {
+	f := calleeObj(&call.Call)
+	isTimeout := func(v ssa.Value) bool {
+		p := path(v)
+		return strings.HasPrefix(p, "global:servitor/config.Parsed") && strings.HasSuffix(p, ".&Network.&Timeout.*")
+	}
+	if f.Pkg().Path() == "net" && f.Name() == "DialTimeout" && len(call.Call.Args) == 3 {
+		if isTimeout(call.Call.Args[2]) {
+			return true, ""
+		}
+		return false, "net.DialTimeout is not given the configured network timeout"
+	}
+	var dialer ssa.Value
+	sig := f.Type().(*types.Signature)
+	switch {
+	case f.Name() == "DialWithDialer" && len(call.Call.Args) > 0:
+		dialer = call.Call.Args[0]
+	case sig.Recv() != nil && len(call.Call.Args) > 0:
+		dialer = call.Call.Args[0]
+	default:
+		return false, "the connection is opened by " + f.FullName() + ", which has no time limit: a peer that accepts and then stays silent during the handshake blocks the fetch for ever"
+	}
+	// the dialer: a package-level variable initialised with a literal
+	v := unwrapLoad(dialer)
+	var lit *ssa.Alloc
+	if ld, ok := v.(*ssa.UnOp); ok && ld.Op == token.MUL {
+		if g, ok := ld.X.(*ssa.Global); ok {
+			for _, fn := range P.FuncsIn(g.Pkg.Pkg.Path()) {
+				eachInstr(fn, func(_ *ssa.BasicBlock, _ int, in ssa.Instruction) {
+					if st, ok := in.(*ssa.Store); ok && st.Addr == ssa.Value(g) {
+						if a, ok := st.Val.(*ssa.Alloc); ok {
+							lit = a
+						}
+					}
+				})
+			}
+		}
+	}
+	if a, ok := v.(*ssa.Alloc); ok {
+		lit = a
+	}
+	if lit == nil {
+		return false, "cannot identify the net.Dialer the connection is opened with"
+	}
+	okT := false
+	for _, r := range refs(lit) {
+		fa, ok := r.(*ssa.FieldAddr)
+		if !ok {
+			continue
+		}
+		name := fieldOf(fa).Name()
+		// a tls.Dialer wraps a NetDialer
+		if name == "NetDialer" {
+			for _, rr := range refs(fa) {
+				if st, ok := rr.(*ssa.Store); ok {
+					if inner, ok := st.Val.(*ssa.Alloc); ok {
+						for _, r2 := range refs(inner) {
+							if fa2, ok := r2.(*ssa.FieldAddr); ok && fieldOf(fa2).Name() == "Timeout" {
+								for _, r3 := range refs(fa2) {
+									if st2, ok := r3.(*ssa.Store); ok && isTimeout(st2.Val) {
+										okT = true
+									}
+								}
+							}
+						}
+					}
+				}
+			}
+		}
+		if name != "Timeout" {
+			continue
+		}
+		for _, rr := range refs(fa) {
+			if st, ok := rr.(*ssa.Store); ok && isTimeout(st.Val) {
+				okT = true
+			}
+		}
+	}
+	if !okT {
+		return false, "the dialer's Timeout is not the configured network timeout (the value that is validated as positive): if what it is set to can be zero, connecting and the TLS handshake have no time limit"
+	}
+	return true, ""
 }
